@@ -7,11 +7,20 @@
         it on), and
     (b) [instances_file_input] replaces the tracker's source.
     [run_shapes2] is [Run.run_shapes] with the instance pass reading [g_inst]
-    and the feature pass reading [g_feat] (same body otherwise;
-    [Proofs/RestrictProofs.v: run_shapes_is_run_shapes2] is by reflexivity). *)
+    and the feature pass reading [g_feat], and with the shexing stage in the
+    order the code has ([ShexingFix.shex_cur], selected by the generated flag
+    [Gen.Consts.c_clean_before_merge]): with two documents a class that HAS
+    instances can lose its typing constraint in the feature pass
+    (namespaces_to_ignore covering the instantiation property), so its shape can
+    be empty at the threshold while other shapes reference it, and the two
+    orders of ClassShexer.shex_classes then differ
+    ([Proofs/OrderIrrelevant.v: order_two_documents_refuted]).
+    [run_shapes2 c thr g g] is [RunCur.run_shapes_cur c thr g] by reflexivity, and
+    equals [Run.run_shapes c thr g] where [Proofs/OrderIrrelevant.v] shows the
+    order to be irrelevant. *)
 From Coq Require Import List Ascii String ZArith NArith Bool.
 From Shexer Require Import Lib.PyStr Lib.Dict Gen.Consts Spec.Rdf Model.Tracker Model.Profiler
-     Model.Tokens Model.Freq Model.Shexing Model.SerialShexc Model.Run Model.NsFilter.
+     Model.Tokens Model.Freq Model.Shexing Model.ShexingFix Model.SerialShexc Model.Run Model.NsFilter.
 Import ListNotations.
 
 Section Run2.
@@ -28,7 +37,7 @@ Section Run2.
         | inr PEAttr => inr REAttr
         | inr PEType => inr REType
         | inl (P, C, _) =>
-          match shex fa (scfg_of c ns) thr P C with
+          match shex_cur fa (scfg_of c ns) thr P C with
           | inr e => inr (rerr_of_s e)
           | inl shapes => inl (ns, shapes)
           end
